@@ -479,7 +479,12 @@ def run_history(script: list[dict], cap: int, world: str, mode: str, seed: int, 
                         r, ended = "err", True
                         obs.append("err:" + hashlib.sha1(f"{e.error_type}|{e.error_message}".encode()).hexdigest()[:12])
                     state["boom"] = False
-                    ev.append({"e": "Input", "r": r, "via": via, "keep": keep, "tab": tab()})
+                    # the table is only meaningful when the server is quiescent: not after a raising callback (the
+                    # server may still be writing its turn) nor after the error of a call rejected before its
+                    # stream opened (the serve loop has yet to swallow the stray input stream)
+                    chk = r in ("data", "stop") or (r == "err" and cur["fail"] != "init")
+                    cur["sync"] = cur.get("sync") or (r == "err" and cur["fail"] == "init")
+                    ev.append({"e": "Input", "r": r, "via": via, "keep": keep, "chk": chk, "tab": tab() if chk else []})
                 elif o == "Close":
                     if ended or sess is None:
                         continue
@@ -494,6 +499,12 @@ def run_history(script: list[dict], cap: int, world: str, mode: str, seed: int, 
                         sess.close()
                         ended = True
                         ev.append({"e": "Close", "how": "close", "tab": tab()})
+                    if cur.get("sync"):
+                        # a void round trip: when it returns the server has consumed everything sent before it
+                        try:
+                            px.uv(tag=0, mode="ok", pad=b"")
+                        except Exception as e:  # noqa: BLE001
+                            errs.append(f"sync: {type(e).__name__}: {e}")
                     rel = bool(op["rel"]) and bool(mine)
                     if rel:
                         for moff in list(mine):
